@@ -1,5 +1,6 @@
 import Driver.Loop
 import Driver.C06
+import Driver.C19
 
 /-- handlers of this executable; each builder adds `Driver.Cxx.handle` here -/
-def main : IO Unit := Driver.runMain [Driver.C06.handle]
+def main : IO Unit := Driver.runMain [Driver.C06.handle, Driver.C19.handle]
